@@ -12,12 +12,18 @@ use crate::world::Status;
 
 pub struct C12;
 
+thread_local! {
+    /// joined file of the "outer" kind for the case being checked (kept out of the many call sites of `execute`)
+    static OUTER_JOINED: std::cell::RefCell<Vec<u8>> = const { std::cell::RefCell::new(Vec::new()) };
+}
+
 const DEFS: &str = "CREATE TABLE raw(line = '(.*)', line[1] => x TEXT); CREATE TABLE j(line = '(.*)', line[1] => y TEXT);";
 
 fn stmt_for(kind: &str) -> &'static str {
     match kind {
         "count" => "SELECT COUNT(*) FROM raw",
         "join" => "SELECT j.y FROM raw INNER JOIN j::'/simfs/joined.log' ON raw.x = j.y",
+        "outer" => "SELECT raw.x FROM raw OUTER JOIN j::'/simfs/joined.log' ON raw.x = j.y",
         _ => "SELECT input FROM raw",
     }
 }
@@ -112,7 +118,13 @@ struct Run {
 impl C12 {
     #[allow(clippy::too_many_arguments)]
     fn execute(&self, out: &mut Outcome, label: &str, kind: &str, files: &[Vec<u8>], steps: &[Step], read_mode: &crate::seam::ReadMode, want_trace: bool, features: &J) -> Option<Run> {
-        let spec = if kind == "join" {
+        let spec = if kind == "outer" {
+            let joined = OUTER_JOINED.with(|j| j.borrow().clone());
+            let mut s = batch_spec(DEFS, stmt_for(kind), files, Some(&joined));
+            s.steps = steps.to_vec();
+            s.read_mode = read_mode.clone();
+            s
+        } else if kind == "join" {
             let joined_model = model(&files[..1]);
             let (main, _) = join_plan(&joined_model);
             let mut s = batch_spec(DEFS, stmt_for(kind), &[main], Some(&files[0]));
@@ -164,10 +176,31 @@ impl Property for C12 {
         ]
     }
 
-    fn generate(&self, rng: &mut Rng, _thorough: bool) -> J {
+    fn generate(&self, rng: &mut Rng, thorough: bool) -> J {
+        let _thorough = thorough;
         let variant = *rng.pick(&["transparent", "transparent", "concat", "badbyte", "badbyte", "eio"]);
-        let kind = *rng.pick(&["input", "input", "count", "join"]);
+        let kind = *rng.pick(&["input", "input", "count", "join", "outer"]);
         let n_files = if kind == "join" { 1 } else { rng.range(1, 4) as usize };
+        // size regime: a file with thousands of lines (beyond any per-batch constant such as 1024 / 4096)
+        let many_lines = (kind == "input" || kind == "count") && rng.chance(if _thorough { 20 } else { 4 }, 1000);
+        if many_lines {
+            let n = rng.range(4100, if _thorough { 20000 } else { 9000 }) as usize;
+            let lines: Vec<Vec<u8>> = (0..n).map(|i| format!("entry {}", i).into_bytes()).collect();
+            let mut files = vec![gen::join_lines(&lines, !rng.chance(1, 4))];
+            if rng.chance(1, 3) {
+                files.push(b"tail a\ntail b\n".to_vec());
+            }
+            return json!({
+                "prop": "C12",
+                "variant": "transparent",
+                "kind": kind,
+                "files": enc_list(&files),
+                "steps": [],
+                "read_mode": "bulk",
+                "bad_style": 0,
+                "outer_joined": "",
+            });
+        }
         let alphabet = *rng.pick(&[Alphabet::Ascii, Alphabet::Utf8, Alphabet::CrBlank, Alphabet::Odd]);
         let huge_case = rng.chance(1, 25);
         let mut files = Vec::new();
@@ -175,7 +208,7 @@ impl Property for C12 {
             let n_lines = if rng.chance(1, 8) { 0 } else { rng.range(1, 10) as usize };
             let mut lines: Vec<Vec<u8>> = Vec::new();
             for _ in 0..n_lines {
-                let mut line = if kind == "join" {
+                let mut line = if kind == "join" || (kind == "outer" && rng.chance(1, 2)) {
                     // few distinct values so that multiplicities exceed one
                     rng.pick(&[&b"a"[..], b"b", b"cc", b"", "é".as_bytes(), b"a b"]).to_vec()
                 } else if huge_case && rng.chance(1, 4) {
@@ -190,7 +223,7 @@ impl Property for C12 {
                     l.retain(|b| *b != b'\r');
                     l
                 };
-                if kind != "join" && rng.chance(1, 6) {
+                if kind != "join" && kind != "outer" && rng.chance(1, 6) {
                     line.push(b'\r'); // CRLF line end
                 }
                 lines.push(line);
@@ -225,6 +258,8 @@ impl Property for C12 {
             "steps": steps_to_json(&steps),
             "read_mode": read_mode_to_json(&gen::gen_read_mode(rng)),
             "bad_style": rng.below(3),
+            // outer kind: the joined file may be empty, hold only non-matching text, or hold partners for some lines
+            "outer_joined": enc(["", "", "zzz-no-partner\n", "a\n", "a\nb\na\n"][rng.below(5)].as_bytes()),
         })
     }
 
@@ -232,6 +267,7 @@ impl Property for C12 {
         use crate::shrink::*;
         let mut out = Vec::new();
         bytes_array_field(case, "files", &mut out);
+        bytes_field(case, "outer_joined", &mut out);
         steps_field(case, "steps", &mut out);
         set_field(case, "read_mode", json!("bulk"), &mut out);
         set_field(case, "kind", json!("input"), &mut out);
@@ -241,8 +277,11 @@ impl Property for C12 {
 
     fn check(&self, case: &J, want_trace: bool) -> Outcome {
         let mut out = Outcome::default();
-        let variant = jstr(case, "variant");
         let kind = jstr(case, "kind");
+        // the outer kind is about presentation of the main lines only: no bad-byte / EIO sweeps there
+        let variant = if kind == "outer" && jstr(case, "variant") != "concat" { "transparent".to_owned() } else { jstr(case, "variant") };
+        let outer_joined = jbytes(case, "outer_joined");
+        OUTER_JOINED.with(|j| *j.borrow_mut() = outer_joined.clone());
         let mut files = jbytes_list(case, "files");
         if files.is_empty() {
             out.invalid = Some("no files".to_owned());
@@ -259,6 +298,10 @@ impl Property for C12 {
             out.invalid = Some("base content is not UTF-8".to_owned());
             return out;
         }
+        if kind == "outer" && (files.iter().any(|f| f.contains(&b'\r')) || outer_joined.contains(&b'\r') || std::str::from_utf8(&outer_joined).is_err()) {
+            out.invalid = Some("CR in a join key".to_owned());
+            return out;
+        }
         if kind == "join" && files[0].contains(&b'\r') {
             // the join key would depend on the CR policy, which the property leaves open
             out.invalid = Some("CR in a join key".to_owned());
@@ -267,7 +310,22 @@ impl Property for C12 {
         let m = model(&files);
         let n = m.len();
         let content_hash = fnv(serde_json::to_string(&case["files"]).unwrap().as_bytes());
-        let expected_values: Vec<Vec<u8>> = if kind == "join" { join_plan(&m).1 } else { m.clone() };
+        let expected_values: Vec<Vec<u8>> = if kind == "join" {
+            join_plan(&m).1
+        } else if kind == "outer" {
+            // every main line is presented: once per partner, or once with NULL joined columns
+            let partners = model(&[outer_joined.clone()]);
+            let mut e = Vec::new();
+            for l in &m {
+                let c = partners.iter().filter(|p| *p == l).count().max(1);
+                for _ in 0..c {
+                    e.push(l.clone());
+                }
+            }
+            e
+        } else {
+            m.clone()
+        };
         let expected_total: u64 = if kind == "join" { model_lines(&join_plan(&m).0).len() as u64 } else { n as u64 };
 
         // --- the fault-transparent run (every variant starts with it)
@@ -479,6 +537,8 @@ impl Property for C12 {
         out.probe("crlf", files.iter().any(|f| f.windows(2).any(|w| w == b"\r\n")) as u64);
         out.probe("file_starts_with_bom", files.iter().any(|f| f.starts_with("\u{FEFF}".as_bytes())) as u64);
         out.probe("odd_characters", files.iter().any(|f| f.iter().any(|b| *b == 0 || *b == 0x0b || *b == 0x0c) || f.windows(3).any(|w| w == "\u{2028}".as_bytes())) as u64);
+        out.probe("more_than_4096_lines_in_a_file", files.iter().any(|f| f.iter().filter(|b| **b == b'\n').count() > 4096) as u64);
+        out.probe("outer_join_with_empty_joined_table", (kind == "outer" && model(&[outer_joined.clone()]).is_empty()) as u64);
         out.probe("line_over_8k", files.iter().any(|f| f.split(|b| *b == b'\n').any(|l| l.len() > 8192)) as u64);
         out.probe(&format!("kind_{}", kind), 1);
         out.probe(&format!("variant_{}", variant), 1);
